@@ -1,4 +1,4 @@
-import SaModel.Lemmas.C01New
+import SaModel.Lemmas.C01NewShape
 /-
 C01 — serialized arrays decode to exactly the input records.
 
@@ -9,7 +9,11 @@ holds, `WFB` the state invariant between two pushes (Build/Inv.lean).
       pushNone_appends / pushDefault_appends / pushScalar_appends   the same for nulls, placeholders, scalar calls
       newDT_fresh / newRoot_fresh   a fresh builder is well formed and empty
       runRows_rows      folding R1 over the rows: the root holds exactly `rows.length` rows, all columns at that length
-  R2  (row content = `Spec.interpDT`) — see the section "R2" below and notes/C01.md for what is proved.
+  R2  push_interp       the appended row is the documented one: `Spec.interpDT` of the value at the builder's field
+      newDT_shape / newRoot_shape   `build_builder` establishes the `Shape` relation R2 is indexed by
+  R3  runRows_interp    after all rows: the root's rows are `interpRow` of the records, all columns at `rows.length`
+      (coverage of R2/R3: every builder family except view types and dictionaries; values without raw
+      key/value call streams — notes/C01.md)
 
 Proofs live in SaModel/Lemmas/C01*.lean (list lemmas, per-family step lemmas, the mutual recursion over the
 serde value); this file states the property-level theorems and gives non-vacuity examples.
@@ -164,6 +168,73 @@ where
       · exact h.2.1
       · exact WFL_cols r len h.2.2 c hc
 
+/-! ## R2 -/
+
+/-- **R2.** The row a successful push appends is the documented one: `Spec.interpDT` at the field the builder was
+built for (records matched by name, numbers by value, variants by index) — for every builder family `Shape`
+covers and every value without raw key/value call streams.  Together with R1: C01 (content), C05 (ok ⇒ exact) and
+C11 (the row depends on the value only through `interpDT`). -/
+theorem push_interp (ext : Ext) (x : SVal) (b b' : B) (dt : DataType) (n : Bool) (md : Metadata)
+    (hraw : noRaw x = true) (hwf : WFB b) (hsafe : Safe b) (hshape : Shape b dt n md) (h : push ext b x = .ok b') :
+    WFB b' ∧ Safe b' ∧ Shape b' dt n md ∧ ∃ lv, dec b' = dec b ++ [lv] ∧ interpDT ext dt n md x = .ok lv := by
+  have ht := push_takeRest ext x b b' h
+  obtain ⟨hw', lv, hd⟩ := Build.push_appends ext x b b' (noRaw_rawOK x hraw) hwf hsafe h
+  exact ⟨hw', Safe.of_takeRest ht hsafe, Shape.of_takeRest ht hshape, lv, hd,
+    Build.push_interp ext x b b' dt n md lv hraw hwf hsafe hshape h hd⟩
+
+/-- `build_builder` establishes `Shape` for every covered data type -/
+theorem newDT_shape (dt : DataType) (path : String) (n : Bool) (md : Metadata) (b : B) (hc : covered dt = true)
+    (h : newDT path dt n md = .ok b) : Shape b dt n md :=
+  Build.newDT_shape dt path n md b hc h
+
+theorem foldl_push_interp (ext : Ext) (dt : DataType) (n : Bool) (md : Metadata) : ∀ (rows : List SVal) (b b' : B),
+    (∀ x ∈ rows, noRaw x = true) → WFB b → Safe b → Shape b dt n md → rows.foldlM (push ext) b = .ok b' →
+    ∃ ls, dec b' = dec b ++ ls ∧ All2 (fun lv x => interpDT ext dt n md x = .ok lv) ls rows
+  | [], b, b', _, _, _, _, h => by
+    simp [List.foldlM, pure, Except.pure] at h; subst h
+    exact ⟨[], by simp, .nil⟩
+  | x :: rest, b, b', hraw, hwf, hs, hsh, h => by
+    simp only [List.foldlM] at h
+    obtain ⟨b1, h1, h⟩ := (bind_ok _ _ _).1 h
+    obtain ⟨hw1, hs1, hsh1, lv, hd1, hi⟩ := push_interp ext x b b1 dt n md (hraw x (by simp)) hwf hs hsh h1
+    obtain ⟨ls, hd, hall⟩ := foldl_push_interp ext dt n md rest b1 b' (fun y hy => hraw y (by simp [hy])) hw1 hs1 hsh1 h
+    exact ⟨lv :: ls, by rw [hd, hd1]; simp, .cons hi hall⟩
+
+/-- **R3.** `runRows` (all records pushed into a fresh root): the rows the root holds are exactly the documented
+rows `interpRow` of the records, in order; the root is a struct of `rows.length` rows without validity, so row `i`
+is the struct of the `i`-th entries of the columns, and every column has length `rows.length`. -/
+theorem runRows_interp (ext : Ext) (fields : List Field) (rows : List SVal) (root0 root : B)
+    (hc : fields.all coveredF = true) (h0 : newRoot fields = .ok root0) (hsafe : Safe root0)
+    (hraw : ∀ x ∈ rows, noRaw x = true) (h : runRows ext fields rows = .ok root) :
+    All2 (fun lv x => interpRow ext fields x = .ok lv) (dec root) rows ∧
+    (∀ col ∈ decRoot root, col.length = rows.length) ∧
+    ∃ p fs cached next seen, root = .struct p rows.length none fs cached next seen ∧
+      dec root = (List.range rows.length).map (rowAt (decCols fs)) := by
+  have hrows := runRows_rows ext fields rows root0 root h0 hsafe (fun x hx => noRaw_rawOK x (hraw x hx)) h
+  have h' := h
+  simp only [runRows, h0] at h'
+  have h' : rows.foldlM (push ext) root0 = .ok root := h'
+  obtain ⟨hw0, hd0, ht0⟩ := newRoot_fresh h0
+  obtain ⟨ls, hd, hall⟩ := foldl_push_interp ext _ _ _ rows root0 root hraw hw0 hsafe (newRoot_shape hc h0) h'
+  rw [hd0, List.nil_append] at hd
+  refine ⟨by rw [hd]; exact hall, hrows.2.2.2, ?_⟩
+  obtain ⟨p, bl, c, s, hr0⟩ := newRoot_struct h0
+  obtain ⟨p', len, fs, cached, next, seen, rfl⟩ := runRows_rows.struct_of_takeRest root (hrows.2.2.1.trans hr0)
+  have hlen : len = rows.length := by
+    have := hrows.2.1
+    simpa [dec_struct, maskNull] using this
+  subst hlen
+  exact ⟨_, _, _, _, _, rfl, by rw [dec_struct]; rfl⟩
+where
+  newRoot_struct {fields : List Field} {r0 : B} (h : newRoot fields = .ok r0) :
+      ∃ p bl c s, r0 = .struct p 0 (newValidity false) bl c 0 s := by
+    simp only [newRoot] at h
+    obtain ⟨bl, _, h⟩ := (bind_ok _ _ _).1 h
+    unfold mkStruct at h
+    split at h
+    · simp [fail] at h
+    · cases h; exact ⟨_, _, _, _, rfl⟩
+
 /-! ### why `Safe` is needed: placeholder keys of an empty dictionary -/
 
 /-- A dictionary with NON-nullable keys below a nullable struct: a null struct row pushes the placeholder key `0`
@@ -212,5 +283,23 @@ example : (do
         [.record "R" (.cons "a" 0 (.int .i32 1) (.cons "b" 1 (.str "x") .nil)),
          .record "R" (.cons "b" 1 .none (.cons "a" 0 (.int .i32 2) .nil))]
       pure (decRoot root) : R (List (List LVal))) = .ok [[.int 1, .int 2], [.str [120], .null]] := by decide +kernel
+
+/-- R2 on a nested state: the Shape of `exList`, and the documented row of a sequence -/
+example : Shape exList (.list (.mk "element" .int32 false [])) true [] := by
+  simp only [exList, Shape]
+  exact ⟨rfl, "element", .int32, false, [], by simp, rfl, rfl⟩
+
+example : interpDT {} (.list (.mk "element" .int32 false [])) true []
+    (.seq (.cons (.int .i8 5) (.cons (.int .i64 6) .nil))) = .ok (.list (.cons (.int 5) (.cons (.int 6) .nil))) := by
+  decide +kernel
+
+/-- R3 hypotheses are satisfiable with a nested, nullable schema: covered, safe, and rows in two presentations -/
+example : [Field.mk "a" (.struct (.cons (.mk "x" .int8 true []) (.cons (.mk "y" .utf8 false []) .nil))) true []].all coveredF = true := by
+  decide
+
+example : interpRow {} [.mk "a" .int32 false [], .mk "b" .utf8 true []]
+      (.record "R" (.cons "b" 1 .none (.cons "a" 0 (.int .i32 2) .nil))) =
+    interpRow {} [.mk "a" .int32 false [], .mk "b" .utf8 true []]
+      (.map (.cons (.str "a") (.int .i64 2) .nil)) := by decide +kernel
 
 end SaModel.Props.C01
